@@ -10,6 +10,7 @@ Content-Length, Transfer-Encoding exactly "chunked", no chunk extensions, no tra
 ENVIRONMENT STUBS (part of every claim using the rig):
   * FakeStream (in-memory IOStream interface, writes complete immediately), VLoop/FakeAio virtual loop;
   * logging disabled (access/app/gen logs are not part of the properties);
+  * time.time() as seen by tornado.web / tornado.httputil is a constant (Date header, request_time);
   * request bytes are concrete, chosen from a pool by (symbolic) index.
 """
 import logging
@@ -19,12 +20,34 @@ from vp.fakestream import FakeStream
 
 import tornado.web
 from tornado import httputil
-from tornado.http1connection import HTTP1ConnectionParameters, HTTP1ServerConnection
+from tornado.http1connection import (HTTP1Connection, HTTP1ConnectionParameters,
+                                     HTTP1ServerConnection)
 
 logging.disable(logging.CRITICAL)
 
+
+class _FixedTime:
+    """`time` module as seen by tornado.web / tornado.httputil: time() is a constant (CrossHair
+    models time.time() as a nondeterministic contract-checked float, which is irrelevant here and
+    breaks the Date header / request_time code); everything else is the real module."""
+
+    def __init__(self, real):
+        self._real = real
+
+    def time(self):
+        return 1790000000.0
+
+    def __getattr__(self, k):
+        return getattr(self._real, k)
+
+
+import time as _time  # noqa: E402
+
+tornado.web.time = _FixedTime(_time)
+httputil.time = _FixedTime(_time)
+
 BASE = b"abcdefghijklmnop"
-STATUS_POOL = (200, 204, 304, 404)
+STATUS_POOL = (204, 304, 404, 200)   # index 0..2 = the non-default codes (default is 200)
 XP_POOL = ("p0", "p1", "p2", "p3")
 
 # ------------------------------------------------------------------ handler programs
@@ -49,7 +72,9 @@ def run_program(h, prog):
         elif kind == ST:
             h.set_status(STATUS_POOL[a & 3])
         elif kind == CL:
-            h.set_header("Content-Length", a)
+            # concrete int per path (forked by the slice): a symbolic digit string inside the
+            # header block would make every later regex/parse step a solver query
+            h.set_header("Content-Length", len(chunk_of(a)))
         elif kind == CLR:
             h.clear_header("Content-Length")
         elif kind == FIN:
@@ -108,10 +133,25 @@ class ZHandler(tornado.web.RequestHandler):
 SECOND_REQ = b"GET /z HTTP/1.1\r\nHost: x\r\n\r\n"
 
 
+def _no_log(handler):
+    pass
+
+
+_APPS = {}
+
+
 def make_app(prog, pre_hook=None, **settings):
-    return tornado.web.Application(
-        [("/a", ProgHandler), ("/e", EarlyHandler), ("/z", ZHandler)],
-        prog=prog, pre_hook=pre_hook, **settings)
+    """The Application object is built once per settings shape (its construction is concrete and
+    independent of the symbolic inputs); only the program is swapped per path."""
+    key = tuple(sorted(settings.items()))
+    app = _APPS.get(key)
+    if app is None:
+        app = _APPS[key] = tornado.web.Application(
+            [("/a", ProgHandler), ("/e", EarlyHandler), ("/z", ZHandler)],
+            log_function=_no_log, **settings)
+    app.settings["prog"] = prog
+    app.settings["pre_hook"] = pre_hook
+    return app
 
 
 def serve(env, app, incoming, no_keep_alive=False, eof=False):
@@ -121,6 +161,27 @@ def serve(env, app, incoming, no_keep_alive=False, eof=False):
     conn.start_serving(app)
     env.run_ready()
     return st
+
+
+# ------------------------------------------------------------------ header injection point
+# A request that carries the marker header "X-Inject: 1" gets the headers in INJECT set on the
+# parsed HTTPHeaders object right after the REAL HTTP1Connection._parse_headers ran on the concrete
+# request bytes.  This hands a short *symbolic* header value (Connection, Accept-Encoding) to the real
+# decision code without embedding symbolic bytes in the long request buffer (the request parser
+# itself is the subject of C01).  ENVIRONMENT STUB, listed by the harnesses that use it.
+INJECT = {}
+_real_parse_headers = HTTP1Connection._parse_headers
+
+
+def _parse_headers_with_injection(self, data):
+    start_line, headers = _real_parse_headers(self, data)
+    if INJECT and headers.get("X-Inject") == "1":
+        for k, v in INJECT.items():
+            headers[k] = v
+    return start_line, headers
+
+
+HTTP1Connection._parse_headers = _parse_headers_with_injection
 
 
 # ------------------------------------------------------------------ strict reference response reader
